@@ -391,12 +391,14 @@ func (p *VipnodePool) connect(ctx context.Context, nodeID string, req ConnectReq
 		VipnodeVersion: req.VipnodeVersion,
 	}
 
+	var hostService jsonrpc2.Service
 	if isHost {
 		// Hosts expose a reverse-RPC for vipnode_whitelist.
 		service, err := jsonrpc2.CtxService(ctx)
 		if err != nil {
 			return nil, err
 		}
+		hostService = service
 
 		// We only care about publicly-visible nodeURIs for hosts.
 		remoteHost := ""
@@ -409,24 +411,29 @@ func (p *VipnodePool) connect(ctx context.Context, nodeID string, req ConnectReq
 			return nil, err
 		}
 
+	}
+
+	if err := p.Store.SetNode(node); err != nil {
+		return nil, err
+	}
+
+	if isHost {
+		// Only now that the node is saved: a registration that fails must not
+		// leave the host registered on this connection.
 		p.mu.Lock()
-		if closer, ok := service.(interface{ Closed() bool }); ok && closer.Closed() {
+		if closer, ok := hostService.(interface{ Closed() bool }); ok && closer.Closed() {
 			// The connection went away while this request was being
 			// processed and CloseRemote has been (or is being) called for
 			// it: registering it now would leave it registered forever.
 			p.mu.Unlock()
 			return nil, fmt.Errorf("connection closed during registration of %s", pretty.Abbrev(nodeID))
 		}
-		p.remoteHosts[node.ID] = service
-		if p.remoteNodeLookup[service] == nil {
-			p.remoteNodeLookup[service] = map[store.NodeID]struct{}{}
+		p.remoteHosts[node.ID] = hostService
+		if p.remoteNodeLookup[hostService] == nil {
+			p.remoteNodeLookup[hostService] = map[store.NodeID]struct{}{}
 		}
-		p.remoteNodeLookup[service][node.ID] = struct{}{}
+		p.remoteNodeLookup[hostService][node.ID] = struct{}{}
 		p.mu.Unlock()
-	}
-
-	if err := p.Store.SetNode(node); err != nil {
-		return nil, err
 	}
 
 	if err := p.BalanceManager.OnClient(node); err != nil {
